@@ -1298,6 +1298,10 @@ impl PeerConnection {
 
     pub fn set_local_description(&self, desc: SessionDescription) -> RtcResult<()> {
         self.inner.validate_sdp_type(&desc.sdp_type)?;
+        // Check the signaling-state precondition before touching any transceiver, so a
+        // rejected call leaves the negotiated parameters exactly as they were.
+        self.inner
+            .check_signaling_precondition(true, desc.sdp_type)?;
 
         // For Offerer: extract parameters from local offer (our intended changes)
         // This allows Offerer to immediately update transceivers with new parameters
@@ -1432,6 +1436,11 @@ impl PeerConnection {
             None
         };
 
+        // Check the signaling-state precondition before re-INVITE handling and the MID counter
+        // update below, so a rejected call changes nothing.
+        self.inner
+            .check_signaling_precondition(false, desc.sdp_type)?;
+
         let previous_remote = self.inner.remote_description.lock().clone();
         let media_parameters_changed = previous_remote.as_ref().is_none_or(|previous| {
             previous.session.connection != desc.session.connection
@@ -1467,7 +1476,10 @@ impl PeerConnection {
         // Update next_mid to avoid collisions with remote MIDs
         for section in &desc.media_sections {
             if let Ok(mid_val) = section.mid.parse::<u16>() {
-                self.inner.next_mid.fetch_max(mid_val + 1, Ordering::SeqCst);
+                // a=mid:65535 is a valid token; there is no next numeric MID to reserve.
+                if let Some(next) = mid_val.checked_add(1) {
+                    self.inner.next_mid.fetch_max(next, Ordering::SeqCst);
+                }
             }
         }
 
@@ -5252,6 +5264,43 @@ impl PeerConnectionInner {
     fn allocate_mid(&self) -> String {
         let mid = self.next_mid.fetch_add(1, Ordering::SeqCst);
         mid.to_string()
+    }
+
+    /// JSEP precondition of `set_local_description` (`local == true`) /
+    /// `set_remote_description` for a description of type `sdp_type`, evaluated
+    /// against the current signaling state without modifying anything.
+    fn check_signaling_precondition(&self, local: bool, sdp_type: SdpType) -> RtcResult<()> {
+        let (required, message) = match (local, sdp_type) {
+            (true, SdpType::Offer) => (
+                SignalingState::Stable,
+                "set_local_description(offer) requires stable signaling state",
+            ),
+            (true, SdpType::Answer) => (
+                SignalingState::HaveRemoteOffer,
+                "set_local_description(answer) requires remote offer",
+            ),
+            (true, SdpType::Pranswer) => (
+                SignalingState::HaveRemoteOffer,
+                "set_local_description(pranswer) requires remote offer",
+            ),
+            (false, SdpType::Offer) => (
+                SignalingState::Stable,
+                "set_remote_description(offer) requires stable signaling state",
+            ),
+            (false, SdpType::Answer) => (
+                SignalingState::HaveLocalOffer,
+                "set_remote_description(answer) requires local offer",
+            ),
+            (false, SdpType::Pranswer) => (
+                SignalingState::HaveLocalOffer,
+                "set_remote_description(pranswer) requires local offer",
+            ),
+            (_, SdpType::Rollback) => return Err(RtcError::NotImplemented("rollback")),
+        };
+        if *self.signaling_state.borrow() != required {
+            return Err(RtcError::InvalidState(message.into()));
+        }
+        Ok(())
     }
 
     fn validate_sdp_type(&self, sdp_type: &SdpType) -> RtcResult<()> {
